@@ -1,4 +1,8 @@
-"""C03 - every produced document is a well-formed docutils tree (structural necessary conditions)."""
+"""C03 - every produced document is a well-formed docutils tree (structural necessary conditions).
+
+R1-R5 are the rules of DESIGN.md section 5; R6 (a new section receives its title before anything else) was
+added while building because the statement says "start with a title" and the tree violates it.
+"""
 
 from __future__ import annotations
 
@@ -1289,7 +1293,6 @@ def _node_bool_always_true(corpus: Corpus) -> bool:
 
     def compute():
         m = corpus.sibling("docutils/nodes.py")
-        defs = [q for q in m.functions if q.endswith(".__bool__") or q.endswith(".__len__") and q.split(".")[0] == "Node"]
         bools = [q for q in m.functions if q.endswith(".__bool__")]
         if bools != ["Node.__bool__"]:
             return False
